@@ -3,9 +3,9 @@ import itertools
 from vlib.runner import Group, run_property
 
 SUM = ["deps.dev/util/semver.compare", "(deps.dev/util/semver.Set).matchVersion", "deps.dev/util/semver.canon$1"]
-NCONS = {0: 24, 4: 24, 1: 24, 2: 4}
+NCONS = {0: 29, 4: 29, 1: 26, 2: 5}
 NVERS = {0: 4, 4: 4, 1: 4, 2: 4}
-QUICK = {0: [5, 6, 12], 4: [3, 7, 10], 1: [5, 9, 12], 2: [0, 1]}
+QUICK = {0: [5, 6, 12, 24], 4: [1, 7, 10, 24], 1: [5, 9, 12], 2: [0, 1]}
 
 
 def run(tier):
